@@ -1,5 +1,6 @@
 import PydapModel.Sexp
 import PydapModel.DdsText
+import PydapModel.DdsForeign
 namespace Pydap.Driver
 open Pydap Sexp Pydap.Dds
 
@@ -34,6 +35,29 @@ partial def ddsTmplS : Tmpl → Sexp
 
 def ddsDsS (d : Dataset) : Sexp := list [atom "ds", atom (ddsHex d.name), list (d.kids.map ddsTmplS)]
 
+def ddsDim? : Sexp → Option (Option (List Char) × Int)
+  | list [atom "none", n] => do pure (none, ← asInt? n)
+  | list [d, n] => do pure (some (← ddsText? d), ← asInt? n)
+  | _ => none
+
+def ddsFBase? : Sexp → Option FBase
+  | list [atom "fb", ty, n, list dims, list gs] => do
+    pure ⟨← ddsText? ty, ← ddsText? n, ← dims.mapM ddsDim?, ← gs.mapM ddsText?⟩
+  | _ => none
+
+partial def ddsFTmpl? : Sexp → Option FTmpl
+  | list [atom "fc", sq, kw, n, list gs, list kids] => do
+    pure (.cont ((← asNat? sq) != 0) (← ddsText? kw) (← ddsText? n) (← gs.mapM ddsText?) (← kids.mapM ddsFTmpl?))
+  | list [atom "fg", kw, kwA, kwM, n, list gs, arr, list maps] => do
+    pure (.grid (← ddsText? kw) (← ddsText? kwA) (← ddsText? kwM) (← ddsText? n) (← gs.mapM ddsText?)
+      (← ddsFBase? arr) (← maps.mapM ddsFBase?))
+  | s => (ddsFBase? s).map FTmpl.base
+
+def ddsFDs? : Sexp → Option FDataset
+  | list [atom "fds", kw, n, list gs, list kids] => do
+    pure ⟨← ddsText? kw, ← ddsText? n, ← gs.mapM ddsText?, ← kids.mapM ddsFTmpl?⟩
+  | _ => none
+
 def ddsErr : Err → String
   | .parse => "(err Exception)"
   | .key => "(err KeyError)"
@@ -54,6 +78,12 @@ def handleDdsText : List Sexp → Option String
   | [atom "dds-norm", d] => do
     let d ← ddsDs? d
     pure (toString (ddsDsS (normDs d)))
+  | [atom "dds-fprint", d] => do
+    let d ← ddsFDs? d
+    pure (ddsHex (ftextDs d))
+  | [atom "dds-fdecl", d] => do
+    let d ← ddsFDs? d
+    pure (toString (ddsDsS (declDs d)))
   | [atom "dds-quote", t] => do
     let t ← ddsText? t
     pure (ddsHex (quoteName t))
